@@ -18,15 +18,15 @@ A failing method whose documented building block failed in the same case
 <- internal_outdegree <- internal_adjacency, ...) is listed under
 "consequences" of the building block's event instead of raising its own."""
 import itertools
+import math
 
 import numpy as np
 
 from pvm.ref import interacting as ref
-from pvm.ref import netmeasures as nm
 from pvm.gen import graphs as gg
 
 META = dict(
-    shards={"quick": 8, "thorough": 16},
+    shards={"quick": 16, "thorough": 16},
     budget={"quick": 32, "thorough": 450},
     timeout={"quick": 600, "thorough": 3000},
     rule=("cases: a network (adjacency, node weights log-uniform 1e-2..1e2 / "
@@ -45,7 +45,9 @@ META = dict(
           "InteractingNetworks (internal ones for the first group) is "
           "compared with the docstring definition evaluated by loops on the "
           "sub-blocks in the given order (integers exact; floats rtol 1e-10, "
-          "float64 on both sides), '_sparse' twins with the compiled "
+          "float64 on both sides; betweenness additionally atol 1e-12 x total "
+          "weight of the targets, because the kernel adds each source's own "
+          "weight to its dependency and subtracts it again), '_sparse' twins with the compiled "
           "variants, symmetric measures with the swapped call; per network "
           "the whole-node-set limits are compared with the single-network "
           "methods; CoupledClimateNetwork wrappers with the generic calls on "
@@ -53,25 +55,25 @@ META = dict(
           "distinct (network, node list pair) with at least one cross link "
           "and one missing cross link (both outcomes of the block entries "
           "occur) on which the whole battery ran."),
-    floors={"quick": {"pairs_exhaustive": 6000, "pairs_random": 300,
-                      "pairs_unsorted": 2500, "pairs_array": 1500,
-                      "pairs_disconnected": 500, "pairs_directed": 1200,
-                      "weighted_compared": 20000, "nsi_compared": 20000,
-                      "betweenness_compared": 2000, "twin_compared": 10000,
-                      "swap_compared": 10000, "whole_set_compared": 2000,
-                      "ccn_wrappers_compared": 600,
-                      "internal_unsorted_compared": 1500},
-            "thorough": {"pairs_exhaustive": 150000, "pairs_random": 6000,
-                         "pairs_unsorted": 70000, "pairs_array": 40000,
-                         "pairs_disconnected": 20000,
-                         "pairs_directed": 30000,
-                         "weighted_compared": 500000,
-                         "nsi_compared": 500000,
-                         "betweenness_compared": 50000,
-                         "twin_compared": 300000, "swap_compared": 300000,
-                         "whole_set_compared": 30000,
-                         "ccn_wrappers_compared": 10000,
-                         "internal_unsorted_compared": 30000}},
+    floors={"quick": {"pairs_exhaustive": 12000, "pairs_random": 800,
+                      "pairs_unsorted": 4500, "pairs_array": 4000,
+                      "pairs_disconnected": 3500, "pairs_directed": 2000,
+                      "weighted_compared": 120000, "nsi_compared": 100000,
+                      "betweenness_compared": 25000, "twin_compared": 35000,
+                      "swap_compared": 50000, "whole_set_compared": 8000,
+                      "ccn_wrappers_compared": 1500,
+                      "internal_unsorted_compared": 25000},
+            "thorough": {"pairs_exhaustive": 150000, "pairs_random": 9000,
+                         "pairs_unsorted": 70000, "pairs_array": 55000,
+                         "pairs_disconnected": 35000,
+                         "pairs_directed": 28000,
+                         "weighted_compared": 1500000,
+                         "nsi_compared": 1200000,
+                         "betweenness_compared": 300000,
+                         "twin_compared": 450000, "swap_compared": 650000,
+                         "whole_set_compared": 90000,
+                         "ccn_wrappers_compared": 12000,
+                         "internal_unsorted_compared": 250000}},
     exhaustive_subspaces={
         "quick": ["all ordered pairs of disjoint non-empty node groups of "
                   "every undirected network on 2..4 nodes and of a seeded "
@@ -96,9 +98,10 @@ META = dict(
         "without any joined pair, densities of one-node groups, "
         "nsi_cross_transitivity without a cross link (0/0; the library raises "
         "ZeroDivisionError there), global_efficiency with zero mean",
-        "nsi_cross_average_path_length on groups with unreachable cross pairs "
-        "(docstring silent): any of 'leave them out', 'count them with N-1' "
-        "or inf is accepted",
+        "nsi_cross_average_path_length on groups with some unreachable cross "
+        "pairs (docstring silent): any of 'leave them out', 'count them with "
+        "N-1' or inf is accepted; with no joined cross pair it is not "
+        "compared",
         "directed networks: only the methods whose docstrings cover them "
         "(adjacency / attribute / path-length blocks, in/out/total degrees "
         "and strengths, internal link numbers and densities, path-length "
@@ -125,7 +128,7 @@ LW = "lw"
 # --------------------------------------------------------------------------
 # comparison helpers
 # --------------------------------------------------------------------------
-def same(lib, want, exact=False):
+def same(lib, want, exact=False, atol=0.0):
     try:
         a = np.asarray(lib, dtype=float)
     except (TypeError, ValueError):
@@ -141,7 +144,7 @@ def same(lib, want, exact=False):
     if not np.array_equal(a[~fin], b[~fin]):
         return False                      # inf / nan pattern must coincide
     return bool(np.all(np.abs(a[fin] - b[fin]) <=
-                       RT * np.abs(b[fin]) + 1e-300))
+                       RT * np.abs(b[fin]) + atol + 1e-300))
 
 
 class Graph:
@@ -433,7 +436,15 @@ class Case:
         self.ctx.evals()
         if not okc:
             return "raises:" + type(val).__name__, val, want
-        if same(val, want, exact="x" in flags):
+        atol = 0.0
+        if "b" in flags:
+            # the kernel accumulates (own weight + dependencies) per source
+            # node and subtracts the own weight afterwards: absolute error
+            # ~ eps * (total weight of the targets) after the division by w_v
+            tg = b if arity == 2 else a
+            atol = 1e-12 * (math.fsum(G.w[t] for t in tg) if "n" in flags
+                            else len(tg))
+        if same(val, want, exact="x" in flags, atol=atol):
             return "ok", val, want
         return "ne-definition", val, want
 
@@ -658,13 +669,17 @@ def nsi_apl(ctx, c):
         ctx.count("nsi_apl_disconnected")
         ex, cnt = ref.nsi_cross_average_path_length_disconnected(
             G.D, G.w, a, b)
-        accept = [cnt, float("inf")] + ([] if ex is None else [ex])
-        undefined = ex is None and isinstance(val, float) and np.isnan(val)
-        if not undefined and not any(same(val, x) for x in accept):
+        if ex is None:
+            # no cross pair joined at all: undefined under 'leave out'
+            # (like cross_average_path_length) -> not compared
+            ctx.count("undefined_skipped")
+            return
+        accept = [cnt, float("inf"), ex]
+        if not any(same(val, x) for x in accept):
             c.relation(name, "ne-definition:disconnected",
                        {"lib": val, "accepted": {
-                           "leave-out": "nan (no joined pair)" if ex is None
-                           else ex, "count-as-N-1": cnt, "inf": "inf"}})
+                           "leave-out": ex, "count-as-N-1": cnt,
+                           "inf": "inf"}})
 
 
 # --------------------------------------------------------------------------
@@ -999,7 +1014,7 @@ def exhaustive_graphs(ctx):
         yield f"u5:{bits}", gg.nth_undirected(5, bits), False
     if T:
         r = ctx.rng("spread-u6")
-        for bits in sorted(int(x) for x in r.choice(1 << 15, 160,
+        for bits in sorted(int(x) for x in r.choice(1 << 15, 400,
                                                     replace=False)):
             yield f"u6:{bits}", gg.nth_undirected(6, bits), False
     for n in (2, 3):
@@ -1012,7 +1027,7 @@ def exhaustive_graphs(ctx):
     if T:
         r = ctx.rng("spread-d5")
         for bits in sorted(int(x) for x in r.choice(
-                1 << 20, 160, replace=False)):
+                1 << 20, 300, replace=False)):
             yield f"d5:{bits}", gg.nth_directed(5, bits), True
 
 
@@ -1066,40 +1081,9 @@ def run(ctx):
         raise RuntimeError(f"reference self-test failed: {bad}")
     ctx.count("ref_selftest_passed")
 
-    # 1. exhaustive group pairs on small networks --------------------------
-    for gi, (gid, A, directed) in enumerate(exhaustive_graphs(ctx)):
-        if not ctx.mine(gi):
-            continue
-        if ctx.only_case is not None and \
-                not str(ctx.only_case).startswith(gid + ":"):
-            continue
-        rng = ctx.rng("ex", gid)
-        np.random.seed(gi)
-        G = make_graph(ctx, IN, A, directed, rng, gi)
-        n = G.N
-        if ctx.want(f"{gid}:whole"):
-            whole_set(ctx, G, f"{gid}:whole")
-        seen_first = set()
-        for k, (a0, b0) in enumerate(disjoint_pairs(n)):
-            cid = f"{gid}:{k}"
-            a, b = order(rng, a0, k), order(rng, b0, k // 2)
-            arr = k % 3 == 0
-            # internal measures: twice per first group (sorted / shuffled,
-            # list / array alternate with k)
-            fk = (tuple(a0), a == sorted(a))
-            internal = fk not in seen_first
-            seen_first.add(fk)
-            if not ctx.want(cid):
-                continue
-            with ctx.guard(60):
-                count_pair(ctx, G, a, b, arr, "exhaustive")
-                battery(ctx, G, a, b, arr, cid, internal=internal)
-        if gi % 97 == 0:
-            ctx.sample({"network": gid, **G.detail(),
-                        "group_pairs": k + 1})
-
-    # 2. random networks, random groups; 3. wrappers ------------------------
-    cap = 6000 if ctx.thorough else 1200
+    # 1. random networks with random groups, and the wrappers (first, so
+    # that a loaded machine cannot starve them; capped) -------------------
+    cap = 12000 if ctx.thorough else 1200
     cap_ccn = 1600 if ctx.thorough else 200
     k = 0
     while ctx.time_left() > 0 and k < max(cap, cap_ccn):
@@ -1136,3 +1120,35 @@ def run(ctx):
         if k % 50 == 1:
             ctx.sample({"network": gid, "kind": kind, "N": G.N,
                         "directed": directed})
+
+    # 2. exhaustive group pairs on small networks (always complete) --------
+    for gi, (gid, A, directed) in enumerate(exhaustive_graphs(ctx)):
+        if not ctx.mine(gi):
+            continue
+        if ctx.only_case is not None and \
+                not str(ctx.only_case).startswith(gid + ":"):
+            continue
+        rng = ctx.rng("ex", gid)
+        np.random.seed(gi)
+        G = make_graph(ctx, IN, A, directed, rng, gi)
+        n = G.N
+        if ctx.want(f"{gid}:whole"):
+            whole_set(ctx, G, f"{gid}:whole")
+        seen_first = set()
+        for k, (a0, b0) in enumerate(disjoint_pairs(n)):
+            cid = f"{gid}:{k}"
+            a, b = order(rng, a0, k), order(rng, b0, k // 2)
+            arr = k % 3 == 0
+            # internal measures: twice per first group (sorted / shuffled,
+            # list / array alternate with k)
+            fk = (tuple(a0), a == sorted(a))
+            internal = fk not in seen_first
+            seen_first.add(fk)
+            if not ctx.want(cid):
+                continue
+            with ctx.guard(60):
+                count_pair(ctx, G, a, b, arr, "exhaustive")
+                battery(ctx, G, a, b, arr, cid, internal=internal)
+        if gi % 97 == 0:
+            ctx.sample({"network": gid, **G.detail(),
+                        "group_pairs": k + 1})
